@@ -71,7 +71,25 @@ def content_files(rng, tier):
     for i in range(4 if tier == "quick" else 16):
         files.append((f"t/r{i}.txt", text_of_size(rng, rng.randrange(1, 700))))
     files += lookalikes(rng)
+    files += longpath_files(rng)
     return files
+
+
+def longpath_files(rng):
+    """Documents reachable only through long request lines: deep trees with long component names
+    (each < 255 bytes; the whole path stays below PATH_MAX).  Percent-encoding triples non-ASCII bytes."""
+    def comp(word, nbytes):
+        w = word.encode("utf-8")
+        return (w * (nbytes // len(w) + 1))[:nbytes - nbytes % len(w)] if False else (word * (nbytes // len(w)))
+
+    cyr = "/".join(comp("каталог-", 200) + str(i) for i in range(3))          # ~600 bytes, ~1.7 KiB once encoded
+    cjk = "/".join(comp("資料夾", 240) + str(i) for i in range(5))             # ~1.2 KiB raw, ~3.6 KiB encoded
+    asc = "/".join(comp("long-ascii-component_", 250) + str(i) for i in range(12))   # ~3 KiB raw
+    out = []
+    for stem, name, data in ((cyr, "doc.txt", text_of_size(rng, 700)), (cjk, "data.bin", rand_bytes(rng, 5000)),
+                             (asc, "a.txt", b"reachable through a three kilobyte selector\n")):
+        out.append((("L/" + stem + "/" + name).encode("utf-8").decode("latin-1"), data))
+    return out
 
 
 def lookalikes(rng):
@@ -449,16 +467,26 @@ def run(tier):
         return out
 
     plan = {"default": [], "full": [], "fullpatt": [], "live": [], "livepatt": []}   # (path, data, special, proto, method, request bytes, tls)
+    rot = 0
     for p, d in files:
-        for q in reqs_for(p, GET_PROTOS, HEAD_PROTOS):
+        protos, heads = GET_PROTOS, HEAD_PROTOS
+        if tier == "quick" and len(d) > 8000:
+            # quick tier: the large documents go through a rotating half of the protocol syntaxes
+            rot += 1
+            protos = [x for k_, x in enumerate(GET_PROTOS) if (k_ + rot) % 2 == 0]
+            heads = [HEAD_PROTOS[rot % 3]]
+        for q in reqs_for(p, protos, heads):
             plan["default"].append((p, d, None) + q)
     for q in reqs_for("big/big.bin", ["gopher", "gopherplus", "http", "gemini", "spartan"], []):
         plan["default"].append(("big/big.bin", big, None) + q)
     full_files = [(p, d) for p, d in files if p in ("s/b0.bin", "s/b4096.bin", "s/b4097.bin", "s/b12289.bin", "s/t4097.txt",
                                                     "t/inv.txt", "n/page.html", "n/sp ace.txt", "n/q?.txt")
                   or p.startswith("k/")]
+    live_long = [(p, d) for p, d in files if p.startswith("L/")]
     for p, d in full_files:
-        for q in reqs_for(p, GET_PROTOS, HEAD_PROTOS):
+        quickcut = tier == "quick" and p.startswith("k/")
+        for q in reqs_for(p, ["gopher", "gopherplus", "https", "wap", "gemini"] if quickcut else GET_PROTOS,
+                          ["http"] if quickcut else HEAD_PROTOS):
             plan["full"].append((p, d, None) + q)
     for q in reqs_for("big/big.bin", ["gopherplus"], []):
         plan["full"].append(("big/big.bin", big, None) + q)
@@ -480,10 +508,11 @@ def run(tier):
 
     # the real ThreadingTCPServer on a socket, TLS requests through a real TLS client: what the
     # in-process transport cannot show (anything that depends on the descriptor under a TLS stream)
-    live_files = [(p, d) for p, d in files if p in ("s/b1.bin", "s/b4095.bin", "s/b4096.bin", "s/b4097.bin", "s/b8193.bin",
-                                                    "s/b12289.bin", "s/t4097.txt", "t/inv.txt", "n/sp ace.txt")]
-    for p, d in live_files:
-        for q in reqs_for(p, GET_PROTOS, ["https"]):
+    live_files = [(p, d) for p, d in files if p in ("s/b4095.bin", "s/b4096.bin", "s/b4097.bin", "s/b12289.bin",
+                                                    "s/t4097.txt", "t/inv.txt", "n/sp ace.txt")]
+    LIVE_PROTOS = GET_PROTOS if tier == "thorough" else ["sgopher", "gopherplus", "sgopherplus", "http", "https", "gemini", "spartan"]
+    for p, d in live_files + live_long:
+        for q in reqs_for(p, LIVE_PROTOS, ["https"]):
             plan["live"].append((p, d, None) + q)
     for q in reqs_for("big/big.bin", ["sgopher", "sgopherplus", "https", "gemini"], []):
         plan["live"].append(("big/big.bin", big, None) + q)
@@ -513,6 +542,64 @@ def run(tier):
                             "meth": meth, "req": reqb, "tls": tls, "out": base64.b64decode(o["out_b64"]),
                             "exc": o["exc"], "log": o["log"]})
 
+    # ---- histories: a document changes between requests inside one long-lived process ----
+    hdocs = {"h/doc.txt": text_of_size(rng, 12), "h/data.bin": rand_bytes(rng, 4097)}
+    hsteps, hmeta = [], []
+
+    def hreqs(state_no, cur):
+        metas = []
+        for pth, dat in cur.items():
+            for q in reqs_for(pth, ["gopher", "gopherplus", "sgopherplus", "http", "wap", "gemini", "spartan"], ["http"]):
+                metas.append((pth, dat) + q)
+        hsteps.append({"op": "req", "requests": [{"data": gen.lat(m[4]), "tls": m[5]} for m in metas]})
+        hmeta.append((state_no, metas))
+    cur = dict(hdocs)
+    hreqs(0, cur)
+    changes = [("write", "h/doc.txt", text_of_size(rng, 5026)), ("truncate", "h/data.bin", b""),
+               ("replace", "h/doc.txt", text_of_size(rng, 300)), ("write", "h/data.bin", rand_bytes(rng, 4099)),
+               ("truncate", "h/doc.txt", b""), ("replace", "h/data.bin", rand_bytes(rng, 1))]
+    if tier == "thorough":
+        changes += [(rng.choice(["write", "replace"]), rng.choice(list(hdocs)), rand_bytes(rng, rng.choice([0, 1, 4095, 4096, 4097, 9000])))
+                    for _ in range(12)]
+    for k, (opn, pth, dat) in enumerate(changes, 1):
+        hsteps.append({"op": opn, "path": pth, "data": latin(dat)})
+        cur[pth] = dat
+        hreqs(k, dict(cur))
+    htree = [{"path": pth, "data": latin(dat), "mtime": 1_700_000_000} for pth, dat in hdocs.items()]
+    # ---- I/O faults after a successful stat: HEAD and GET must still tell the same story ----
+    ftree = [{"path": "f/doc.txt", "data": "fault doc\n", "mtime": 1_700_000_000},
+             {"path": "f/dir", "kind": "dir"}, {"path": "f/dir/x.txt", "data": "x\n", "mtime": 1_700_000_000},
+             {"path": "f/gm", "kind": "dir"}, {"path": "f/gm/gophermap", "data": "iinfo\n0x\t/f/doc.txt\n", "mtime": 1_700_000_000},
+             {"path": "f/page.html", "data": "<html><title>T</title></html>\n", "mtime": 1_700_000_000}]
+    fcases = []
+    for fault, target in (("eacces-open", "/f/doc.txt"), ("vanish-open", "/f/doc.txt"), ("eacces-open", "/f/page.html"),
+                          ("eacces-list", "/f/dir"), ("eacces-open", "/f/gm/gophermap"), ("vanish-open", "/f/gm/gophermap")):
+        req_sel = "/f/gm" if target.endswith("/gophermap") else target
+        rq = []
+        for proto in ("http", "https", "wap"):
+            d_, t_ = gen.request_bytes(proto, req_sel)
+            rq.append((proto, "GET", d_, t_))
+            rq.append((proto, "HEAD", d_.replace(b"GET ", b"HEAD ", 1), t_))
+        fcases.append({"fault": fault, "path": target, "selector": req_sel, "rq": rq,
+                       "requests": [{"data": gen.lat(d_), "tls": t_} for _, _, d_, t_ in rq]})
+    xres = impl_run_parallel([{"op": "c04_history", "tree": htree, "steps": hsteps},
+                              {"op": "c04_faults", "tree": ftree,
+                               "cases": [{k_: c_[k_] for k_ in ("fault", "path", "requests")} for c_ in fcases]}], chunks=2)
+    for r in xres:
+        if not r["ok"]:
+            raise RuntimeError(r["err"] + "\n" + r.get("tb", ""))
+    req_steps = [st for st in xres[0]["res"]["steps"] if "results" in st]
+    history_of = {}
+    for (state_no, metas), stp in zip(hmeta, req_steps):
+        upto = [i for i, st in enumerate(hsteps) if st["op"] == "req"][state_no]
+        history_of[f"hist{state_no}"] = {"tree": htree, "steps": hsteps[:upto + 1]}
+        for qi, (m, o) in enumerate(zip(metas, stp["results"])):
+            pth, dat, proto, meth, reqb, tls = m
+            records.append({"cfg": f"hist{state_no}", "path": pth, "sel": sel_of(pth), "data": dat, "special": None,
+                            "proto": proto, "meth": meth, "req": reqb, "tls": tls, "out": base64.b64decode(o["out_b64"]),
+                            "exc": o["exc"], "log": o["log"], "request_index": qi})
+    sel_guess.update({sel_of(pth): twin_guess(sel_of(pth), T) for pth in hdocs})
+
     # gopher0 body of a transformed document = what the handler wrote (reference for TAL)
     handler_out = {}
     for r in records:
@@ -520,6 +607,10 @@ def run(tier):
             handler_out[(r["cfg"], r["path"])] = r["out"]
 
     def world_for(r):
+        if r["cfg"] in history_of:
+            return {"tree": history_of[r["cfg"]]["tree"], "config": "history", "steps": history_of[r["cfg"]]["steps"],
+                    "request_index_in_last_step": r.get("request_index"),
+                    "note": "requests follow each change at once, in one long-lived process"}
         ent = [e for e in tree if e["path"] == r["path"]]
         return {"tree": ent, "config": r["cfg"]}
 
@@ -622,6 +713,26 @@ def run(tier):
             report(r, "document body differs from the file's bytes" if sp is None
                    else "document body differs from the transformed document", f"body:{r['proto']}:{kind}",
                    body_bytes=len(body), expected_bytes=len(want), first_difference_at=first)
+    # HEAD vs GET under injected I/O faults
+    nfault = 0
+    for case, cres in zip(fcases, xres[1]["res"]["cases"]):
+        outs = {}
+        for (proto, meth, d_, t_), o in zip(case["rq"], cres["results"]):
+            outs[(proto, meth)] = (base64.b64decode(o["out_b64"]), d_, t_, o)
+        for proto in ("http", "https", "wap"):
+            nfault += 1
+            chk.count(("fault", case["fault"], case["path"], proto))
+            g, h = outs[(proto, "GET")], outs[(proto, "HEAD")]
+            gp, hp = split_response(proto, gen.mask_times(g[0])), split_response(proto, gen.mask_times(h[0]))
+            if gp is None or hp is None or gp[0] != hp[0]:
+                found = True
+                reported_tags.add(f"head-differs:{proto}:fault")
+                chk.violation({"what": "under an I/O fault HEAD does not return the header block GET returns",
+                               "fault": case["fault"], "fault_path": case["path"], "protocol": proto, "selector": case["selector"],
+                               "get_request_latin1": gen.lat(g[1]), "head_request_latin1": gen.lat(h[1]), "tls": g[2],
+                               "get_response_head_latin1": gen.lat(g[0][:300]), "head_response_head_latin1": gen.lat(h[0][:300]),
+                               "world": {"tree": ftree}, "kind": "fault"}, tag=f"head-differs:{proto}:fault")
+    cov["faults"] = {"head_vs_get_under_fault": nfault}
     cov["oracle"] = {"requests": n_or, "files": len(files) + 1 + len(special), "violations": len(chk.violations)}
 
     tick("oracle")
@@ -649,8 +760,8 @@ def run(tier):
         tag = f"f{fi}"
         r0 = recs[0]
         sp = r0["special"]
-        defs = [coq_def(f"d_{tag}", r0["data"])]
-        weight = len(r0["data"])
+        defs = [coq_def(f"d_{tag}", r0["data"]), coq_defs(f"s_{tag}", r0["sel"])]
+        weight = len(r0["data"]) + len(r0["sel"])
         if sp and sp[0] == "gz":
             defs.append(coq_def(f"plain_{tag}", sp[1]))
             weight += len(sp[1])
@@ -660,7 +771,7 @@ def run(tier):
         seen = {}
         for i, r in enumerate(recs):
             out = gen.mask_times(r["out"])
-            sel = coq_str(r["sel"])
+            sel = f"s_{tag}"
             if r["proto"] == "wap":
                 t = expected_type(sel_guess[r["sel"]], tables["default_mimetype"],
                                   decomp if sp and sp[0] == "gz" else None, tal=bool(sp and sp[0] == "tal"))
@@ -696,7 +807,7 @@ def run(tier):
         parts.append((key[0],) + file_part(fi, key, recs))
     bundles = []
     bundle_recs = []
-    for cfgname in ("default", "full", "fullpatt", "live", "livepatt"):
+    for cfgname in sorted({p[0] for p in parts}):
         cur = None
         for c, defs, weight, groups in sorted([p for p in parts if p[0] == cfgname], key=lambda p: -p[2]):
             if cur is None or cur["w"] + weight > 70000:
@@ -786,9 +897,25 @@ def run(tier):
 def replay(path):
     with open(path) as f:
         rep = json.load(f)
+    if rep.get("kind") == "fault":
+        print("replay: fault cases are re-run by the check itself (op c04_faults); see the file for the input")
+        return 2
     if rep.get("kind") != "doc" or "tree" not in rep.get("world", {}):
         print("replay: not a replayable document case (see the file for the input)")
         return 2
+    if rep["world"].get("config") == "history":
+        res = impl_run([{"op": "c04_history", "tree": rep["world"]["tree"], "steps": rep["world"]["steps"]}])
+        if not res[0]["ok"]:
+            print(res[0]["err"])
+            return 2
+        last = [st for st in res[0]["res"]["steps"] if "results" in st][-1]["results"][rep["world"]["request_index_in_last_step"]]
+        out = base64.b64decode(last["out_b64"])
+        print("steps   :", [(st["op"], st.get("path"), len(st.get("data", ""))) for st in rep["world"]["steps"]])
+        print("request :", repr(rep["request_latin1"]))
+        print("response:", repr(out[:300]), "... (%d bytes)" % len(out))
+        same = gen.mask_times(out)[:300] == gen.mask_times(rep["response_head_latin1"].encode("latin-1"))
+        print("same behaviour as recorded:", same)
+        return 1 if same else 0
     cfg = NAMED_CONFIGS.get(rep["world"]["config"])
     res = impl_run([{"op": "c04_live" if rep["world"]["config"].startswith("live") else "c04_world", "tree": rep["world"]["tree"], "config": cfg,
                      "requests": [{"data": rep["request_latin1"], "tls": rep["tls"]}]}])
